@@ -46,6 +46,7 @@ class Output:
     suffix: Optional[str] = None
     name_base: Optional[Term] = None
     uniq: Optional[Term] = None
+    name_keep: Optional[Tuple[Term, Term]] = None      # (condition, name) when the column keeps a name as it is instead of uniquifying
     flow_problems: List[str] = field(default_factory=list)
     problems: List[str] = field(default_factory=list)
     name_facts: Optional[tuple] = None
@@ -420,9 +421,15 @@ class GroupModel:
         if nm is None:
             out.problems.append("the output column has no name")
             return
-        if nm[0] == "call" and nm[1][0] == "lam" and len(nm[2]) == 1 and not nm[3] and it.atomic_closure(it.closures[nm[1][1]]):
+        is_uniq = lambda t: t[0] == "call" and t[1][0] == "lam" and len(t[2]) == 1 and not t[3] and it.atomic_closure(it.closures[t[1][1]])
+        if is_uniq(nm):
             out.uniq = nm[1]
             out.name_base = nm[2][0]
+        elif nm[0] == "ifexp" and is_uniq(nm[3]):
+            # <name kept as it is> if <condition> else uniquify(<base>): judged by the key-column rule
+            out.uniq = nm[3][1]
+            out.name_base = nm[3][2][0]
+            out.name_keep = (nm[1], nm[2])
         else:
             out.problems.append(f"output name `{self.sh(nm, 60)}` does not pass through the uniquifier")
             out.name_base = nm
